@@ -277,6 +277,9 @@ func nativeGlobal(ex *Exec, name string, t types.Type) (Value, bool) {
 	case "crypto/rand.Reader":
 		rt := ex.eng.namedType("crypto/rand", "reader")
 		return IfaceV{T: types.NewPointer(rt), V: PtrV{N: ex.newNode(rt)}}, true
+	case "os.Stdout", "os.Stderr", "os.Stdin":
+		ft := ex.eng.namedType("os", "File")
+		return PtrV{N: ex.newNode(ft)}, true
 	case "os.Args":
 		return ex.zero(t), true
 	case "io.Discard":
